@@ -282,7 +282,7 @@ func (fc *fsCtx) ruleAllocator(r *Report, im *fsImpl) {
 			if !ok {
 				continue
 			}
-			k := exprKey(ret.Results[0])
+			k := sk(ret.Results[0])
 			recv := alloc.Params[0].Name()
 			for c := 1; c < 4; c++ {
 				if k == fmt.Sprintf("(len(%s.%s) + %d)", recv, cf, c) {
@@ -297,7 +297,7 @@ func (fc *fsCtx) ruleAllocator(r *Report, im *fsImpl) {
 		p.instrs(alloc, func(b *ssa.BasicBlock, i int, in ssa.Instruction) {
 			if st, ok := in.(*ssa.Store); ok {
 				if bo, ok := st.Val.(*ssa.BinOp); ok && bo.Op == token.ADD {
-					if c, ok := constInt(bo.Y); ok && c >= 1 && exprKey(bo.X) == exprKey(st.Addr) {
+					if c, ok := constInt(bo.Y); ok && c >= 1 && sk(bo.X) == sk(st.Addr) {
 						okShape = true
 					}
 				}
@@ -328,7 +328,7 @@ func (fc *fsCtx) ruleAllocator(r *Report, im *fsImpl) {
 				}
 			}
 			r.Check("R14b", fmt.Sprintf("%s.%s insert into %s", im.Name, f.Name(), cf), instrPos(in), fresh || existing,
-				"key is "+exprKey(mu.Key)+": a new entry must be keyed by the allocator's result, an update by a descriptor validated by a helper")
+				"key is "+sk(mu.Key)+": a new entry must be keyed by the allocator's result, an update by a descriptor validated by a helper")
 		})
 	}
 }
@@ -439,7 +439,7 @@ func checkC12(p *Prog, r *Report) {
 								kinds = append(kinds, "allocator")
 							} else {
 								ok = false
-								kinds = append(kinds, "call "+exprKey(x))
+								kinds = append(kinds, "call "+sk(x))
 							}
 						case *ssa.Extract:
 							if c, isCall := x.Tuple.(*ssa.Call); isCall {
@@ -450,17 +450,17 @@ func checkC12(p *Prog, r *Report) {
 							}
 							if lk, isLk := x.Tuple.(*ssa.Lookup); isLk {
 								ok = false
-								kinds = append(kinds, "lookup in "+exprKey(lk.X))
+								kinds = append(kinds, "lookup in "+sk(lk.X))
 								continue
 							}
 							ok = false
-							kinds = append(kinds, exprKey(x))
+							kinds = append(kinds, sk(x))
 						case *ssa.Lookup:
 							ok = false
-							kinds = append(kinds, "lookup in "+exprKey(x.X))
+							kinds = append(kinds, "lookup in "+sk(x.X))
 						default:
 							ok = false
-							kinds = append(kinds, exprKey(o))
+							kinds = append(kinds, sk(o))
 						}
 					}
 				}
@@ -510,7 +510,7 @@ func checkC12(p *Prog, r *Report) {
 							what = append(what, "alloc")
 						default:
 							okFresh = false
-							what = append(what, exprKey(o))
+							what = append(what, sk(o))
 						}
 					}
 					r.Check("R12b", fmt.Sprintf("%s.%s result fresh", im.Name, f.Name()), instrPos(in), okFresh,
@@ -551,14 +551,14 @@ func checkC12(p *Prog, r *Report) {
 						if !bok {
 							okv = false
 						}
-						what = append(what, "append("+exprKey(base)+", …)")
+						what = append(what, "append("+sk(base)+", …)")
 					} else {
 						okv = false
-						what = append(what, exprKey(x))
+						what = append(what, sk(x))
 					}
 				default:
 					okv = false
-					what = append(what, exprKey(o))
+					what = append(what, sk(o))
 				}
 			}
 			r.Check("R12b", fmt.Sprintf("%s.%s stored contents", mem.Name, f.Name()), instrPos(in), okv,
@@ -731,7 +731,7 @@ func (fc *fsCtx) ruleReadAt(r *Report, mem, dir *fsImpl) {
 				nRet++
 				ms, isMake := sl.X.(*ssa.MakeSlice)
 				okBuf := isMake && stripConv(ms.Len) == ssa.Value(lenP)
-				r.Check("R12e", im.Name+".ReadAt buffer is make(length)", instrPos(sl), okBuf, "result buffer is "+exprKey(sl.X)+", must be make([]byte, length)")
+				r.Check("R12e", im.Name+".ReadAt buffer is make(length)", instrPos(sl), okBuf, "result buffer is "+sk(sl.X)+", must be make([]byte, length)")
 				// High bound = count of copy/pread into that buffer
 				okN, src := false, ""
 				if sl.Low == nil && sl.High != nil {
@@ -739,14 +739,14 @@ func (fc *fsCtx) ruleReadAt(r *Report, mem, dir *fsImpl) {
 					case *ssa.Call: // copy
 						if bi, ok := h.Call.Value.(*ssa.Builtin); ok && bi.Name() == "copy" && h.Call.Args[0] == sl.X {
 							okN = true
-							src = exprKey(h.Call.Args[1])
+							src = sk(h.Call.Args[1])
 							// source must be contents[offset:]
 							if s2, ok := h.Call.Args[1].(*ssa.Slice); ok {
 								okSrc := s2.Low != nil && stripConv(s2.Low) == ssa.Value(offP) && s2.High == nil
 								r.Check("R12e", im.Name+".ReadAt source is contents[offset:]", instrPos(h), okSrc, "copy source is "+src)
 								// offset < len(contents) must hold (else the slice expression panics)
 								rs := p.RelsAt(rm, s2)
-								want := offP.Name() + " < uint64(len(" + exprKey(s2.X) + "))"
+								want := offP.Name() + " < uint64(len(" + sk(s2.X) + "))"
 								r.Check("R12e", im.Name+".ReadAt offset in range", instrPos(s2), rs[want], fmt.Sprintf("need fact `%s`; facts: %v", want, relList(rs)))
 							} else {
 								r.Fail("R12e", im.Name+".ReadAt source is contents[offset:]", instrPos(h), "copy source is "+src, "")
@@ -757,12 +757,12 @@ func (fc *fsCtx) ruleReadAt(r *Report, mem, dir *fsImpl) {
 							if cal := calleeOf(&c.Call); cal != nil && fullName(cal) == "golang.org/x/sys/unix.Pread" && h.Index == 0 && c.Call.Args[1] == sl.X {
 								okN = true
 								okOff := stripConv(c.Call.Args[2]) == ssa.Value(offP)
-								r.Check("R12e", im.Name+".ReadAt pread offset", instrPos(c), okOff, "pread offset is "+exprKey(c.Call.Args[2])+", must be the offset parameter")
+								r.Check("R12e", im.Name+".ReadAt pread offset", instrPos(c), okOff, "pread offset is "+sk(c.Call.Args[2])+", must be the offset parameter")
 							}
 						}
 					}
 				}
-				r.Check("R12e", im.Name+".ReadAt result is buf[:n]", instrPos(sl), okN, "result is "+exprKey(sl)+": must be buf[:n] with n the number of bytes copied/read into buf")
+				r.Check("R12e", im.Name+".ReadAt result is buf[:n]", instrPos(sl), okN, "result is "+sk(sl)+": must be buf[:n] with n the number of bytes copied/read into buf")
 			}
 		})
 		if nRet == 0 {
@@ -894,16 +894,16 @@ func (fc *fsCtx) ruleAtomicCreateDir(r *Report, dir *fsImpl, full bool) {
 			fmt.Sprintf("protocol needs openat, write, fsync and renameat; found openat=%v writes=%d fsync=%v renameat=%v", open != nil, len(writes), fsync != nil, rename != nil), "")
 		return
 	}
-	fdKey := exprKey(open) + "#0"
+	fdKey := sk(open) + "#0"
 	if full {
 		r.Check("R13a", dir.Name+".AtomicCreate no other syscalls", f.Pos(), len(others) == 0, "unexpected system calls in the protocol: "+strings.Join(others, ","))
 		// order by dominance
 		for _, w := range writes {
-			r.Check("R13a", dir.Name+".AtomicCreate open ≺ write", instrPos(w), dominatesInstr(open, w) && exprKey(w.Call.Args[0]) == fdKey, "write must follow the open and go to the staging descriptor")
+			r.Check("R13a", dir.Name+".AtomicCreate open ≺ write", instrPos(w), dominatesInstr(open, w) && sk(w.Call.Args[0]) == fdKey, "write must follow the open and go to the staging descriptor")
 			// write must not be reachable after fsync
 			r.Check("R13a", dir.Name+".AtomicCreate write ≺ fsync", instrPos(w), !reachesInstr(fsync, w), "a write is reachable after fsync: data written after the flush is not durable when the name becomes visible")
 		}
-		r.Check("R13a", dir.Name+".AtomicCreate fsync target", instrPos(fsync), exprKey(fsync.Call.Args[0]) == fdKey, "fsync must flush the staging descriptor")
+		r.Check("R13a", dir.Name+".AtomicCreate fsync target", instrPos(fsync), sk(fsync.Call.Args[0]) == fdKey, "fsync must flush the staging descriptor")
 		r.Check("R13a", dir.Name+".AtomicCreate fsync ≺ rename", instrPos(rename), dominatesInstr(fsync, rename), "rename is reachable without a preceding fsync: the name can become visible before the data is durable")
 		// every normal return passes through rename
 		paths, okp := p.enumPaths(f, 1, 20000)
@@ -949,17 +949,17 @@ func (fc *fsCtx) ruleAtomicCreateDir(r *Report, dir *fsImpl, full bool) {
 						adv = true
 					}
 				}
-				k := "len(" + exprKey(ph) + ")"
+				k := "len(" + sk(ph) + ")"
 				exit := rsF[k+" <= 0"] || rsF[eqRel(k, "0")]
 				if init && adv && exit {
 					okAll = true
 				} else {
 					why = fmt.Sprintf("write loop: starts at data=%v, advances by count=%v, exits only when empty=%v (facts at fsync: %v)", init, adv, exit, relList(rsF))
 				}
-			} else if buf == ssa.Value(dataP) && eqHolds(rsF, exprKey(cnt), "len("+dataP.Name()+")") {
+			} else if buf == ssa.Value(dataP) && eqHolds(rsF, sk(cnt), "len("+dataP.Name()+")") {
 				okAll = true
 			} else if why == "" {
-				why = "write buffer is " + exprKey(buf) + " and the count is not proven equal to len(data) before fsync"
+				why = "write buffer is " + sk(buf) + " and the count is not proven equal to len(data) before fsync"
 			}
 		}
 		r.Check("R13b", dir.Name+".AtomicCreate writes all of data", instrPos(writes[0]), okAll, why)
@@ -975,7 +975,7 @@ func (fc *fsCtx) ruleAtomicCreateDir(r *Report, dir *fsImpl, full bool) {
 	empty := okc && flags&oc != 0 && (flags&ot != 0 || flags&ox != 0) && (flags&acc == ow || flags&acc == orw)
 	if !empty {
 		p.instrs(f, func(b *ssa.BasicBlock, i int, in ssa.Instruction) {
-			if c, name, ok := unixCall(in); ok && name == "Ftruncate" && exprKey(c.Call.Args[0]) == fdKey {
+			if c, name, ok := unixCall(in); ok && name == "Ftruncate" && sk(c.Call.Args[0]) == fdKey {
 				if z, ok := constInt(c.Call.Args[1]); ok && z == 0 {
 					all := true
 					for _, w := range writes {
@@ -997,15 +997,15 @@ func (fc *fsCtx) ruleAtomicCreateDir(r *Report, dir *fsImpl, full bool) {
 	}
 	// R13d
 	stage := open.Call.Args[1]
-	r.Check("R13d", dir.Name+".AtomicCreate rename source is the staging path", instrPos(rename), rename.Call.Args[1] == stage || exprKey(rename.Call.Args[1]) == exprKey(stage),
-		"renameat source "+exprKey(rename.Call.Args[1])+" differs from the opened path "+exprKey(stage))
+	r.Check("R13d", dir.Name+".AtomicCreate rename source is the staging path", instrPos(rename), rename.Call.Args[1] == stage || sk(rename.Call.Args[1]) == sk(stage),
+		"renameat source "+sk(rename.Call.Args[1])+" differs from the opened path "+sk(stage))
 	deps := paramDeps(stage)
 	r.Check("R13d", dir.Name+".AtomicCreate one root descriptor", instrPos(rename),
-		exprKey(open.Call.Args[0]) == exprKey(rename.Call.Args[0]) && exprKey(rename.Call.Args[0]) == exprKey(rename.Call.Args[2]),
+		sk(open.Call.Args[0]) == sk(rename.Call.Args[0]) && sk(rename.Call.Args[0]) == sk(rename.Call.Args[2]),
 		"open and both sides of the rename must be relative to the same root descriptor")
 	wantDst := "path.Join([" + dirP.Name() + "," + nameP.Name() + "])"
-	r.Check("R13d", dir.Name+".AtomicCreate destination", instrPos(rename), exprKey(rename.Call.Args[3]) == wantDst,
-		"destination is "+exprKey(rename.Call.Args[3])+", must be "+wantDst)
+	r.Check("R13d", dir.Name+".AtomicCreate destination", instrPos(rename), sk(rename.Call.Args[3]) == wantDst,
+		"destination is "+sk(rename.Call.Args[3])+", must be "+wantDst)
 	// R13f uniqueness
 	uniq := okc && flags&ox != 0
 	for d := range deps {
@@ -1053,7 +1053,7 @@ func (fc *fsCtx) ruleAtomicCreateDir(r *Report, dir *fsImpl, full bool) {
 		walk(stage, map[ssa.Value]bool{})
 	}
 	r.Check("R13f", dir.Name+".AtomicCreate staging path unique per call", instrPos(open), uniq,
-		fmt.Sprintf("the staging path %s depends only on %v and is opened without O_EXCL: concurrent calls that agree on those (the same name; with fname alone also the same name in different directories) write through one shared temporary file", exprKey(stage), sortedKeys(deps)))
+		fmt.Sprintf("the staging path %s depends only on %v and is opened without O_EXCL: concurrent calls that agree on those (the same name; with fname alone also the same name in different directories) write through one shared temporary file", sk(stage), sortedKeys(deps)))
 }
 
 // reachesInstr: is b reachable from a (strictly after a)?
@@ -1114,12 +1114,12 @@ func (fc *fsCtx) ruleAtomicCreateMem(r *Report, mem *fsImpl) {
 				inodeKey = mu.Key
 			}
 			r.Check("R13e", mem.Name+".AtomicCreate fresh inode", instrPos(in), fresh,
-				"contents are stored under key "+exprKey(mu.Key)+": must be a new inode from the allocator, otherwise readers holding the old file see it change (torn) and hard links change with it")
+				"contents are stored under key "+sk(mu.Key)+": must be a new inode from the allocator, otherwise readers holding the old file see it change (torn) and hard links change with it")
 			// value = make(len(data)) filled by copy(p, data)
 			ms, isMake := mu.Value.(*ssa.MakeSlice)
 			okCopy := false
 			if isMake {
-				lenOK := exprKey(ms.Len) == "len("+dataP.Name()+")"
+				lenOK := sk(ms.Len) == "len("+dataP.Name()+")"
 				for _, rf := range refs(ms) {
 					if c, ok := rf.(*ssa.Call); ok {
 						if bi, ok := c.Call.Value.(*ssa.Builtin); ok && bi.Name() == "copy" && c.Call.Args[0] == ssa.Value(ms) && c.Call.Args[1] == ssa.Value(dataP) && dominatesInstr(c, in) {
@@ -1129,7 +1129,7 @@ func (fc *fsCtx) ruleAtomicCreateMem(r *Report, mem *fsImpl) {
 				}
 			}
 			r.Check("R13e", mem.Name+".AtomicCreate installs a complete private copy", instrPos(in), okCopy,
-				"stored value "+exprKey(mu.Value)+" must be make([]byte, len(data)) filled by copy(p, data) before it is installed")
+				"stored value "+sk(mu.Value)+" must be make([]byte, len(data)) filled by copy(p, data) before it is installed")
 		case df:
 			nD++
 			d := paramDeps(mu.Key)
